@@ -149,7 +149,7 @@ func H_C02_Startup() {
 	m := f.m
 	f.del = &vDelegateRec{meta: vBytes(vPick(2))}
 	conf.Delegate = f.del
-	k := vPick(2 + vTier()) // claims handled in the window: 0..1 (thorough 0..2)
+	k := vPick(2) // claims handled in the window: 0..1 (two arbitrary claims exceed 200 000 paths)
 	for i := 0; i < k; i++ {
 		target := []string{vSelf, vPeerA}[vPick(2)]
 		c := vArbClaim(target)
